@@ -181,3 +181,62 @@ pub fn segs(c: &mut Cur) -> Vec<Seg> {
   }
   out
 }
+
+/// a concurrent program (C18): shared tree over the types with lazily filled shared state,
+/// 2-3 threads x 1-3 operations, and the rest of the input as the schedule
+pub fn program(data: &[u8]) -> (crate::props::c18::Program, Vec<u8>) {
+  use crate::props::c18::{Op, Program};
+  fn shared(c: &mut Cur, depth: u32) -> Spec {
+    let k = if depth == 0 { c.below(5) } else { c.below(11) };
+    match k {
+      0 => Spec::Raw(ascii(c, 6)),
+      1 => Spec::RawBuf(ascii(c, 6).into_bytes()),
+      2 => Spec::RawBytes(ascii(c, 6).into_bytes()),
+      3 => Spec::Orig { text: ascii(c, 6), name: format!("f{}.js", c.below(3)) },
+      4 => Spec::Custom { text: ascii(c, 6) },
+      5 | 6 => {
+        let n = 1 + c.below(3);
+        Spec::Concat { how: c.u8() % 3, children: (0..n).map(|_| shared(c, depth - 1)).collect() }
+      }
+      7 | 8 => {
+        let inner = shared(c, depth - 1);
+        let t = model_text(&inner);
+        let pool: Vec<u16> = (0..1 + c.below(4)).map(|_| c.u16()).collect();
+        let abs: Vec<AbsRepl> = (0..c.below(4))
+          .map(|_| {
+            let f = c.u8();
+            AbsRepl::new(c.u16(), c.u16(), f & 3 == 0, if f & 0x1c == 0 { 1 } else { 0 }, if f & 0x20 != 0 { String::new() } else { ascii(c, 2) }, c.u8() % 6, c.u8() % 3)
+          })
+          .collect();
+        Spec::Replace { inner: Box::new(inner), repls: concretize_repls(&t, &pool, &abs, false) }
+      }
+      _ => Spec::Cached(Box::new(shared(c, depth - 1))),
+    }
+  }
+  fn ascii(c: &mut Cur, max: usize) -> String {
+    const A: &[&str] = &["a", "b", ";", "\n", " ", "{", "xy"];
+    let n = c.below(max + 1);
+    (0..n).map(|_| A[c.below(A.len())]).collect()
+  }
+  let mut c = Cur::new(data);
+  let tree = normalize(shared(&mut c, 3), GenCfg::positional());
+  let nthreads = 2 + c.below(2);
+  let threads = (0..nthreads)
+    .map(|_| {
+      (0..1 + c.below(3))
+        .map(|_| match c.below(12) {
+          0 | 1 => Op::Source,
+          2 => Op::Size,
+          3 | 4 => Op::Map(c.u8() % 2 == 0),
+          5 | 6 => Op::Stream(c.u8() % 2 == 0),
+          7 | 8 => Op::Hash,
+          9 => Op::CloneSource,
+          10 => Op::CloneMap(c.u8() % 2 == 0),
+          _ => Op::EqTwin,
+        })
+        .collect()
+    })
+    .collect();
+  let schedule: Vec<u8> = data.get(c.pos..).unwrap_or(&[]).iter().take(48).map(|b| b % 3).collect();
+  (Program { tree, threads }, schedule)
+}
